@@ -56,7 +56,8 @@ def gen_case(rng, nthreads=None, ncalls=None, exhaustive=False, with_mid=None):
         threads.append([(rng.choice(mids + ([3] if rng.random() < 0.1 else [])), rng.choice([0, 1, 1, 5])) for _ in range(n)])
     total = sum(5 * len(t) for t in threads)
     sched = [rng.randrange(nth) for _ in range(rng.randint(0, total))]
-    return {"partial": rng.random() < 0.2, "terms": terms, "threads": threads, "sched": sched, "shared": rng.random() < 0.35}
+    return {"partial": rng.random() < 0.2, "terms": terms, "threads": threads, "sched": sched, "shared": rng.random() < 0.35,
+            "report": rng.random() < 0.25}        # the original ended by Termination::report() after the join
 
 
 def op_counts(model_obs, nthreads):
